@@ -46,7 +46,25 @@ def rule_a(ctx):
                 for e in p.events:
                     if e.kind == 'call' and e.data.get('name') == 'request' and e.data.get('how') in ('app', 'unknown'):
                         reqs.append((p, e))
+            recognised = False
+            for k in h.mro():
+                fr = getattr(k, 'methods', {}).get('frame_received')
+                if fr is not None:
+                    for x in walk_local(fr.node):
+                        if isinstance(x, ast.Call) and isinstance(x.func, ast.Name) and x.func.id == 'isinstance' and \
+                                len(x.args) == 2 and en.frame_cls.name in ast.unparse(x.args[1]).replace('(', ' ').replace(
+                                    ')', ' ').replace(',', ' ').split():
+                            recognised = True
+            if not reqs and not recognised:
+                continue
             if not reqs:
+                # the handler recognises the frame and no path hands its credit on while the frame is being handled:
+                # dropped, or deferred to a later loop turn - by then a CANCEL of the same read has been handled and
+                # the credit starts a producer nobody listens to
+                n += 1
+                rep.bad('C06.a', '%s / credit of the frame forwarded to Subscription.request' % en.name, en.func,
+                        'no path calls Subscription.request(frame.%s) while the frame is handled (the credit is '
+                        'dropped or handed over later, e.g. through call_soon)' % field)
                 continue
             n += 1
             bad = [e for p, e in reqs if not e.data.get('args') or
